@@ -236,4 +236,25 @@ func init() {
 		Outside: []string{"selectors longer than the bounds (the full rule-injecting member of the known-finding family needs 40+ bytes; its 8-byte relatives are inside)", "Style values other than the two constants (they come from checked constructors)"},
 		Intrinsics: []string{"(*Regexp).ReplaceAllString (leftmost-first segmentation)", "(*Regexp).FindStringSubmatch", "strings.ContainsRune", "fmt.Sprintf %s{%s}", "map iteration in insertion order (matchingBrackets: order-independent use)"},
 	})
+
+	reg(&Prop{
+		ID:    "C17",
+		Title: "ScriptFromDataAndConstant embeds data as an inert, round-tripping JSON literal (string data)",
+		Harnesses: []HarnessSpec{
+			{Pkg: "safehtml", Name: "vHarness_C17_string", Quick: []ParamRange{{"nn", 0, 4}, {"n", 0, 3}}, Thorough: []ParamRange{{"nn", 0, 5}, {"n", 0, 5}}, Reach: []string{"accepted", "rejected"},
+				Filter: func(p map[string]int) bool { return p["nn"] <= 2 || p["n"] <= 2 },
+				Desc: "name and string data symbolic: success => name is an ASCII identifier, result == var name = J;\\nscript, J is a JSON string literal that a scalar JSON-string scanner finds inert (no raw quote / control / < > & / U+2028 / U+2029)"},
+		},
+		Probes: []ProbeSpec{
+			{Pkg: "safehtml", Name: "vProbe_C17_script", NArgs: 2, Alphabet: "ab$_0\"\\\\<>&/\n\x00\x1f\xe2\x80\xa8\xa9\xff ", MaxLen: 6, N: 1500, TestDir: ".", Extra: []string{"x", "myVar", "9a", "a b", "\u2028", "\u2029", "</script>", "<!--", "\xff\xfe", "\u00e9"}},
+		},
+		Functions: []string{"safehtml.ScriptFromDataAndConstant", "safehtml.Script.String", "jsIdentifierPattern from the current source", "encoding/json.appendString[string] (stdlib SSA, with htmlSafeSet / hex built by executing encoding/json's initialiser)"},
+		Bounds: map[string]string{
+			"quick":    "names of 0..4 bytes x string data of 0..3 arbitrary bytes (longer names only with data <= 2 bytes)",
+			"thorough": "names of 0..5 bytes x string data of 0..5 arbitrary bytes (names > 2 bytes only with data <= 2 bytes)",
+		},
+		Outside: []string{"every data value that is not a Go string: maps, slices, structs, numbers, json.Marshaler / TextMarshaler implementations, json.RawMessage, unencodable values (their encoding runs through reflect and the encoder cache, which the engine cannot encode)",
+			"the 'decodes back to the same JSON value' clause (needs the decoder)", "a change to a different encoder API is reported INCONCLUSIVE, not pass"},
+		Intrinsics: []string{"encoding/json.Marshal for dynamic type string = appendString[string](nil, v, true) from stdlib SSA", "fmt.Sprintf with %s", "regexp MatchString"},
+	})
 }
